@@ -615,8 +615,55 @@ def u_xy_setters(root):
     return eng
 
 
+def u_reference_binding(root):
+    """add_error / add_matrix_error of the containers: the reference handed to the new source is a BOUND METHOD of this container (possibly with the axis
+    pre-applied), never a closure over it - copy.deepcopy re-binds bound methods (and functools.partial objects of them) to the copy, while a lambda is copied
+    as the same function object and keeps reading the ORIGINAL container (XYFit, IndexedFit, HistFit and MultiFit keep deep copies of the containers they are given)"""
+    import ast as _ast
+    eng = engine(root, FILES, {"IndexedContainer": {"_data": SEQ}, "XYContainer": {"_data": MAT}, "HistContainer": {"_data": SEQ}}, [])
+
+    def ctor(cls):
+        def f(e, st, a, kw, node):
+            st.ghost["handed"] = st.ghost.get("handed", ()) + ((cls, kw.get("reference")),)
+            return e.alloc(st, "source", cls)
+        return f
+    eng.lib["class:SimpleGaussianError"] = ctor("SimpleGaussianError")
+    eng.lib["class:MatrixGaussianError"] = ctor("MatrixGaussianError")
+    eng.lib["np.asarray"] = eng.lib["np.array"] = lambda e, st, a, kw, n: a[0]
+    eng.lib["np.ones"] = lambda e, st, a, kw, n: VSeq(FnArr(lambda k_: z3.RealVal(1)), a[0].e)
+    mk(eng, "DataContainerBase", "_add_error_object", result=lambda vw: VStr("name"))
+    mk(eng, "XYContainer", "_find_axis_raise", result=lambda vw: VNum(z3.Int("axis_index")))
+    mk(eng, "MatrixGaussianError", "check_cov_mat_symmetry", result=lambda vw: VNone())
+
+    def bound_to_self(vw, r):
+        if isinstance(r, VBound):
+            return isinstance(r.recv, VRef) and z3.is_true(z3.simplify(r.recv.e == vw.self.e))
+        if isinstance(r, VPartial):
+            return bound_to_self(vw, r.f) and not any(isinstance(x, (VRef, VLambda)) for x in list(r.args) + list(r.kw.values()))
+        return False
+
+    def post(vw):
+        if vw.flow == "raise":
+            return [("no exception", z3.BoolVal(False))]
+        handed = vw.post.ghost.get("handed", ())
+        return [("exactly one source object is built", z3.BoolVal(len(handed) == 1)),
+                ("its reference is a bound method of this container (re-bound by a deep copy), not a closure over the original and not a snapshot of the values", z3.BoolVal(len(handed) == 1 and bound_to_self(vw, handed[0][1])))]
+    ev = VSeq.fresh("err_val")
+    ev.ndim = z3.IntVal(1)
+    M = VMat.fresh("err_matrix") if hasattr(VMat, "fresh") else VMat(z3.Const("err_matrix", arr(I, arr(I, R))), z3.Int("err_matrix_rows"), z3.Int("err_matrix_cols"))
+    for cls in ("IndexedContainer", "HistContainer", "XYContainer"):
+        ax = {"axis": VStr("y")} if cls == "XYContainer" else {}
+        c = Contract(cls, "add_error")
+        c.ensures.append(post)
+        eng.verify(cls, "add_error", None, lambda e, st, me_, ax=ax: dict(ax, err_val=ev), contract=c)
+        c = Contract(cls, "add_matrix_error")
+        c.ensures.append(post)
+        eng.verify(cls, "add_matrix_error", None, lambda e, st, me_, ax=ax: dict(ax, err_matrix=M, matrix_type=VStr("cov")), contract=c)
+    return eng
+
+
 def units(root):
     return [Unit("XYContainer.x / .y setters re-point every source of the axis", u_xy_setters), Unit("SimpleGaussianError._calculate_cov_mat_generic", u_generic), Unit("SimpleGaussianError caches", u_source), Unit("SimpleGaussianError setters", u_source_setters),
             Unit("SimpleGaussianError.error", u_source_error_getters), Unit("IndexedContainer total error", u_total), Unit("IndexedContainer mutators", u_mutators),
             Unit("HistContainer.fill, rebin, set_bins invalidation", u_hist_invalidation), Unit("HistContainer._get_error_reference", u_hist_reference), Unit("parametric model: recompute before summing", u_model_recalc), Unit("HistParametricModel._recalculate re-points sources", u_hist_model_recalc),
-            Unit("XYContainer total error", u_xy)]
+            Unit("XYContainer total error", u_xy), Unit("containers hand their sources a bound method as reference", u_reference_binding)]
